@@ -21,7 +21,8 @@ POOL = ['a', 'ab', 'aab', 'abab', 'ab1', '1ab1', 'bbbb', 'aaaaa', 'ab1ab1', 'b1'
 # one continuation seen once after a context seen > e^10 / 2 times: the transition is smoothed to the cap (level 10), so strings sit exactly at
 # level 10 x transitions and every level above that must be empty for them
 K10 = 45000
-CAPPED = [['love'] * K10 + ['lovx'], ['ab'] * K10 + ['aa'], ['love'] * K10 + ['lovx', 'lovey', 'ilove'], ['aba'] * K10 + ['abb', 'ab', 'ba']]
+CAPPED = [['love'] * K10 + ['dove'] * 40 + ['hove'] * 15 + ['move', 'lovx'],      # initial n-grams at levels 0, 1, 2 and 5
+          ['love'] * K10 + ['lovx'], ['ab'] * K10 + ['aa'], ['love'] * K10 + ['lovx', 'lovey', 'ilove'], ['aba'] * K10 + ['abb', 'ab', 'ba']]
 
 
 def rle(lines):
